@@ -68,6 +68,15 @@ for i in range(ncases):
     elif m < 0.45:
         wkind, vector, wv = 1, False, [pool.wavelength(atoms)]
         arg = wv[0]
+        if rng.random() < 0.3:
+            # a scalar that is a numpy scalar (an element of an array, a float32, an integer): still a scalar
+            kind_ = rng.choice(["float64", "float32", "int64", "int32"])
+            if kind_.startswith("int"):
+                wv = [float(rng.choice([1, 2, 4, 5, 6]))]
+            elif kind_ == "float32":
+                wv = [float(np.float32(wv[0]))]
+            arg = getattr(np, kind_)(wv[0])
+            stats["numpy_scalar"] = stats.get("numpy_scalar", 0) + 1
     elif m < 0.6:
         wkind, vector, wv = 1, True, [pool.wavelength(atoms)]
         arg = list(wv) if rng.random() < 0.5 else np.array(wv)
